@@ -70,7 +70,13 @@ func mutate(r *rng, s string, ver int) string {
 		return s
 	}
 	i := r.intn(len(parts))
-	switch r.intn(14) {
+	switch r.intn(16) {
+	case 14: // many more parts than any version has
+		for k := 10 + r.intn(50); k > 0; k-- {
+			parts = append(parts, parts[r.intn(len(parts))])
+		}
+	case 15: // one very long element
+		parts[i] = parts[i] + strings.Repeat(r.pick([]string{"A", "/", ":", "N/", "\xff", "X:"}), 20+r.intn(200))
 	case 0: // drop a part
 		parts = append(parts[:i:i], parts[i+1:]...)
 	case 1: // duplicate a part
